@@ -22,6 +22,10 @@ CLAIMED = {
           "Machine-checked proof over all contribution vectors, ties, intervals and salts in exact arithmetic; implementation tied bit for bit; metamorphic oracle evaluates the invariance and the bounds on the real code.",
           "T04.c proved for the computation after sorting (shape of the sorted list as hypothesis); doubles: exact-arithmetic cancellation may differ at a rounding tie (oracle covers the real code).",
           "DESIGN.md §5 C04"),
+  "C18": ("Lean 4 theorems (step lemmas for any number of dimensions: child-index bits, dimension removal, child ranges = selected halves, routed row stays in range, split test => not a point / >= low_threshold entities per id column / qualifying projection, tight range = hull growth, outlier folding touches no range) + bit-exact correspondence of whole forests (column ranges, null stand-ins, every 1-3 column tree with sub-nodes, stubs, push-down, counters) with the executable Lean model + the invariant evaluated on every real tree",
+          "Machine-checked proof of the step facts for all inputs; executable model of tree.py/forest.py reproduces the real trees bit for bit on every run (noise, explicit ids, all parameter sets); the full invariant is evaluated on the real trees by an independent oracle that locates projections by ranges. The lift of the step lemmas to whole insertion histories is not yet a Lean theorem (partial).",
+          "Global induction over insertion histories not proved; known finding: tight range in >=2-dim trees includes rows beyond a column's final root range.",
+          "DESIGN.md §5 C18"),
 }
 NOT_YET = "check not built yet in this work session (model/theorems in progress); see DESIGN.md §5 for the plan"
 
